@@ -9,6 +9,7 @@ def showModel (r : Except RErr Route) : String :=
   | .error e => s!"err:{errName e}"
   | .ok r => match r.clusters with
     | [(c, _)] => s!"cluster:{c}:{r.timeoutMs}"
+    | [] => "err:pick"       -- the first match selects no cluster: the call fails (C09), it does not fall through
     | _ => "cluster:?"
 
 def showSpec (r : Sum String Route) : String :=
@@ -16,6 +17,7 @@ def showSpec (r : Sum String Route) : String :=
   | .inl e => s!"err:{e}"
   | .inr r => match r.clusters with
     | [(c, _)] => s!"cluster:{c}:{r.timeoutMs}"
+    | [] => "err:pick"
     | _ => "cluster:?"
 
 def check (j : Json) : Except String Verdict := do
